@@ -36,6 +36,7 @@ def base_messages() -> t.List[t.Any]:
         L.BindRequest(1, [L.LDAPControl("1.2", True, b"v"), L.PagedResultControl(False, 5, b"ck")], 3, "n", L.SaslCredential("M", b"c")),
         L.BindRequest(1, [], 3, "n", L.SimpleCredential("p")),
         L.BindRequest(1, [], 3, "", L.SaslCredential("M", None)),
+        L.BindRequest(1, [], 2, "cn=v2", L.SimpleCredential("p")),  # an LDAPv2 bind: a message like any other to the session
         L.BindResponse(1, [], RES, b"s"),
         L.BindResponse(1, [], L.LDAPResult(C.SASL_BIND_IN_PROGRESS, "", "", None), b"x"),
         L.UnbindRequest(1, []),
